@@ -101,7 +101,7 @@ def _real_data(model, pattern):
     return pd.DataFrame({"Days": np.arange(n) + 1, "Gas": gas, "Pressure": pr, "Extra": np.arange(n)})
 
 
-def replay_fit(model, pattern=("ok", "ok", "ok", "ok"), filt=True, window=None):
+def replay_fit(model, pattern=("ok", "ok", "ok", "ok"), filt=True, window=None, pvt_desc=False):
     import numpy as np
     import pandas as pd
     import warnings
@@ -110,6 +110,8 @@ def replay_fit(model, pattern=("ok", "ok", "ok", "ok"), filt=True, window=None):
     data = _real_data(model, pattern)
     gv = {"N2": 0.0, "H2S": 0.0, "CO2": 0.0, "Gas Specific Gravity": 0.65, "Reservoir Temperature (deg F)": 200.0}
     pvt = build_pvt_gas(gv, "dry gas", 6000)
+    if pvt_desc:
+        pvt = pvt.iloc[::-1].reset_index(drop=True)      # the same table listed from high pressure to low
     keep = data[(data["Gas"] > 0) & data["Pressure"].notna()] if filt else data
     if len(keep) < 2 or keep["Pressure"].isna().any():
         return False, {"what": "too few usable rows for a concrete replay"}
@@ -262,7 +264,7 @@ def job_objective(job):
         job.prove(f"objective/second evaluation: p_initial of the rebuilt flow properties[path{k}]", pr.pc + [T.b_not(T.b_and(*facts))], bound="two calls", replay=replay_obj_second)
 
 
-def job_fit(job, pattern, filt, window):
+def job_fit(job, pattern, filt, window, pvt_desc=False):
     mod = _load()
     job.encoded(mod, "fit_production_pressure")
     job.stub("lmfit Parameters / Minimizer: contract stubs (declared limits recorded; fitted values inside them)",
@@ -277,8 +279,16 @@ def job_fit(job, pattern, filt, window):
     frame = pd_shim.SymFrame()
     frame.cols = {"Days": SymArray(days, "f8"), "Gas": SymArray(gas, "f8"), "Pressure": SymArray(prs, "f8"), "Extra": SymArray([Q(7)] * n, "f8")}
     p0, imax, inmax = fresh("p_guess", pos=True), fresh("imax", pos=True), fresh("inmax", pos=True)
-    pvt = object()
-    tag = f"fit[{','.join(short)}+{FILLER} productive days;filter={filt};window={window}]"
+    # the PVT table: a 3-row frame (pressure increasing or, `pvt_desc`, listed from high to low - the forward model only
+    # interpolates it, so both are the same table); it must reach the forward model as the caller's object
+    pv = [fresh("pvt_p0", pos=True)]
+    for k_ in (1, 2):
+        pv.append(pv[-1] + fresh(f"pvt_dp{k_}", pos=True))
+    pvt = pd_shim.SymFrame()
+    pvt.cols = {c: SymArray(list(reversed(v)) if pvt_desc else list(v), "f8") for c, v in
+                (("pressure", pv), ("pseudopressure", [fresh(f"pvt_m{k_}", pos=True) for k_ in range(3)]), ("z-factor", [fresh(f"pvt_z{k_}", pos=True) for k_ in range(3)]),
+                 ("compressibility", [fresh(f"pvt_c{k_}", pos=True) for k_ in range(3)]), ("viscosity", [fresh(f"pvt_mu{k_}", pos=True) for k_ in range(3)]))}
+    tag = f"fit[{','.join(short)}+{FILLER} productive days;filter={filt};window={window}{';PVT table listed high to low' if pvt_desc else ''}]"
 
     def run():
         MinimizerStub.instances.clear()
@@ -287,7 +297,7 @@ def job_fit(job, pattern, filt, window):
                                           filter_zero_prod_days=filt, n_iter=Q(17))
         return res, list(MinimizerStub.instances)
 
-    rp = (replay_fit, {"pattern": [("ok" if q == "sure" else q) for q in pattern], "filt": filt, "window": window})
+    rp = (replay_fit, {"pattern": [("ok" if q == "sure" else q) for q in pattern], "filt": filt, "window": window, "pvt_desc": pvt_desc})
     res = paths(job, run, [], catch=(Exception,), max_paths=64)
     for k, pr in enumerate(res):
         if pr.exc is not None:
@@ -390,4 +400,5 @@ def jobs(tier):
                 continue
             for w in (None, 1):
                 out.append((f"fit-{'-'.join(p)}-{filt}-{w}", lambda j, p=p, f=filt, w=w: job_fit(j, p, f, w)))
+    out.append(("fit-ok-ok-ok-True-None-pvt-descending", lambda j: job_fit(j, ("ok", "ok", "ok"), True, None, True)))
     return out
